@@ -53,6 +53,8 @@ static std::vector<std::string> traceOfB(const ICase &c, bool withA, std::string
     }
     size_t start = I.trace.size();
     I.input(c.B);
+    // the error queue is a legitimate channel between messages: a case in which it overflowed is outside the comparison
+    for (auto &l : I.trace) if (l == "E:-350") { if (inv && inv->empty()) *inv = "SKIP-queue-overflow"; break; }
     if (inv && inv->empty()) *inv = I.invariant;
     std::vector<std::string> t;
     for (size_t i = start; i < I.trace.size(); i++) if (I.trace[i].compare(0, 2, "C:") != 0) t.push_back(I.trace[i]);
@@ -62,6 +64,7 @@ static std::vector<std::string> traceOfB(const ICase &c, bool withA, std::string
 static std::string runCase(const ICase &c, bool *nt = nullptr) {
     std::string inv; bool aInt = false;
     std::vector<std::string> after = traceOfB(c, true, &inv, &aInt);
+    if (inv == "SKIP-queue-overflow") { if (nt) *nt = false; return ""; }
     if (!inv.empty()) return inv + ": " + describe(c);
     std::vector<std::string> fresh = traceOfB(c, false, &inv, nullptr);
     if (!inv.empty()) return inv + ": " + describe(c);
@@ -87,9 +90,56 @@ static std::string body(Src &s, Ev &ev) {
     return m;
 }
 
+// ---- unit isolation inside one message: the handler events of unit U2 in "U1;:U2" equal those of ":U2" alone
+static std::vector<std::string> eventsOf(const World &w, const std::string &msg, std::string *inv) {
+    Inst I(worldCfg(w, msg.size() + 8, 128));
+    I.input(msg);
+    if (inv && inv->empty()) *inv = I.invariant;
+    std::vector<std::string> ev;
+    for (auto &l : I.trace) if (l[0] == 'H' || l[0] == 'N' || l[0] == 'I' || l[0] == 'V' || l[0] == 'E') ev.push_back(l);
+    return ev;
+}
+static std::string bodyUnits(Src &s, Ev &ev) {
+    World w = genWorld(s, true);
+    MsgOpt mo; mo.terminate = false; mo.maxUnits = 1;
+    std::string u1 = genMessage(s, w, mo), u2 = genMessage(s, w, mo);
+    if (s.prob(1, 6)) mutateBytes(s, u1);
+    // keep U1 a single unit (no separator / terminator bytes) and make U2's header absolute
+    for (auto &c : u1) if (c == ';' || c == '\n' || c == '\r') c = ' ';
+    for (auto &c : u2) if (c == ';' || c == '\n' || c == '\r') c = ' ';
+    neutraliseQuotedTerminators(u1);
+    size_t h = u2.find_first_not_of(" \t");
+    if (h == std::string::npos) return "";
+    if (u2[h] != ':' && u2[h] != '*') u2.insert(h, ":");
+    // precondition: U1 followed by ';' must be one complete unit (an unterminated quote or block would swallow the separator);
+    // the unit scanner itself is used to decide that - it is not the oracle here
+    {
+        std::string probe = u1 + ";" + u2 + "\n";
+        XBuf pb(probe.size() + 1); memcpy(pb.p, probe.c_str(), probe.size() + 1);
+        scpi_parser_state_t ps; memset(&ps, 0, sizeof ps);
+        int r = scpiParser_detectProgramMessageUnit(&ps, pb.p, (int) probe.size());
+        if (r != (int) u1.size() + 1 || ps.termination != SCPI_MESSAGE_TERMINATION_SEMICOLON || ps.programHeader.type == SCPI_TOKEN_INVALID) { ev.label("units-skipped-U1-not-a-single-unit"); return ""; }
+    }
+    std::string inv;
+    std::vector<std::string> e1 = eventsOf(w, u1 + "\n", &inv), e2 = eventsOf(w, u2 + "\n", &inv), both = eventsOf(w, u1 + ";" + u2 + "\n", &inv);
+    ev.eval();
+    if (!inv.empty()) return inv;
+    std::vector<std::string> exp = e1; exp.insert(exp.end(), e2.begin(), e2.end());
+    bool nt = !e1.empty() && !e2.empty();
+    if (nt) { ev.nt(hashStr(u1 + "|" + u2)); if (ev.wantSample()) ev.sample("units: '" + vis(u1) + "' ; '" + vis(u2) + "'"); }
+    if (both != exp) {
+        size_t i = 0; while (i < both.size() && i < exp.size() && both[i] == exp[i]) i++;
+        std::string t = "table ["; for (size_t k = 0; k < w.table.size(); k++) t += fmt("%zu:'", k + 1) + w.table[k].text + "' ";
+        return fmt("events of '%s;%s' differ from those of the two units alone at #%zu: '%s' vs '%s' ", vis(u1).c_str(), vis(u2).c_str(), i, i < both.size() ? both[i].c_str() : "(end)", i < exp.size() ? exp[i].c_str() : "(end)") + t + "]";
+    }
+    return "";
+}
+
 int main(int argc, char **argv) {
     std::vector<Sub> subs;
     subs.push_back({"rand", [](const Opt &o, Ev &ev) { g_shrinkBudget = 8000; runRandom(o, ev, "rand", 1200, o.quick() ? 25000 : 250000, body); },
                     [](const Replay &r) { auto v = r.choices(); Src s(v); Ev e; return body(s, e); }});
+    subs.push_back({"units", [](const Opt &o, Ev &ev) { g_shrinkBudget = 8000; runRandom(o, ev, "units", 700, o.quick() ? 15000 : 150000, bodyUnits); },
+                    [](const Replay &r) { auto v = r.choices(); Src s(v); Ev e; return bodyUnits(s, e); }});
     return mainWith(argc, argv, "C09", subs);
 }
